@@ -13,7 +13,7 @@
 From Coq Require Import List NArith ZArith Bool Arith Lia.
 From RecordUpdate Require Import RecordUpdate.
 From JV Require Import Bytes Msg SrvModel SrvLemmas SrvBasics SrvC10 SrvC08 SrvC08b SrvC08c SrvC08q SrvC08r SrvC08s SrvC08u SrvC08y SrvC08n SrvC08w SrvC08v SrvC08m.
-From JV Require Import SrvEventually.
+From JV Require Import SrvEventually SrvProgress.
 Import ListNotations.
 
 (** 1. No interleaving makes the process panic: none of the model's crash outcomes (CrNilChannel = deliver
@@ -422,6 +422,27 @@ Theorem c08_waitstatus_eventually_returns : forall c s0 l s1 os1 tr1 s oss1, rea
   eventually s (c08_waits_returned c s0 l s).
 Proof. exact SrvEventually.c08_waitstatus_eventually_returns. Qed.
 Print Assumptions c08_waitstatus_eventually_returns.
+
+(* the same with the handlers returning (srv/SrvProgress.v; eventually_prog, is_prog, at_rest, mu_prog are spelled out in
+   props/C01.v section 14): in the last state of every maximal PROGRESS run (release labels and handler returns only)
+   from s - reached within mu_prog s windows - no hypothesis on the handlers is left: once the reader's Recv has
+   returned (nothing to assume on a channel whose Close unblocks Recv) every WaitStatus call that was pending has
+   returned with the cause of the stop and every goroutine has exited *)
+Theorem c08_all_waits_returned_spec : forall c s0 l s tr s' oss, c08_all_waits_returned c s0 l s tr s' oss <->
+  exists k, stop_cause s0 l k /\ stop_err s' = Some k /\ running s' = false /\
+    (forall os r, In os oss -> In (OWaitRet r) os -> r = Some k) /\
+    count_waitret (concat oss) + waits s' = waits s /\
+    ((rd s' = RExited \/ rd s' = RNone \/ cf_unblock c = true) ->
+     waits s' = 0 /\ count_waitret (concat oss) = waits s /\ wg s' = 0 /\ all_done s').
+Proof. exact (fun c s0 l s tr s' oss => conj (fun x => x) (fun x => x)). Qed.
+Print Assumptions c08_all_waits_returned_spec.
+
+Theorem c08_waitstatus_eventually_all_return : forall c s0 l s1 os1 tr1 s oss1, reach c s0 ->
+  step s0 l = Some (s1, os1) -> running s0 = true -> running s1 = false -> run s1 tr1 = Some (s, oss1) ->
+  ~ In LStart tr1 -> 0 < cf_K c ->
+  eventually_prog s (c08_all_waits_returned c s0 l s).
+Proof. exact SrvProgress.c08_waitstatus_eventually_all_return. Qed.
+Print Assumptions c08_waitstatus_eventually_all_return.
 
 (* the measure and the release labels, spelled out; every label [enabled_rel] offers is a release label *)
 Theorem c08_mu_rel_spec : forall s, mu_rel s =
